@@ -30,6 +30,8 @@ pub struct ShardSummary {
     pub evaluations_enumerated: u64,
     pub evaluations_random: u64,
     pub nontrivial_hashes: Vec<u64>,
+    #[serde(default)]
+    pub nontrivial_count: u64,
     pub labels: BTreeMap<String, u64>,
     pub samples: Vec<serde_json::Value>,
     pub failures: Vec<FoundFailure>,
@@ -47,8 +49,12 @@ pub struct ShardArgs {
     pub digest_file: Option<String>,
     pub regressions_dir: String,
     pub known: KnownFindings,
-    /// multiply the number of random cases (thorough multi-seed runs)
+    /// run only this stage (regressions | enumerated | random)
     pub stage_filter: Option<String>,
+    /// when a case with this hash is executed, write it (JSON) to the given path
+    pub emit: Option<(u64, String)>,
+    /// write the hashes of the distinct non-trivial cases to this file (8 bytes each) instead of the JSON summary
+    pub hash_file: Option<String>,
 }
 
 pub fn case_hash<C: Hash>(c: &C) -> u64 {
@@ -81,6 +87,7 @@ struct State<P: Prop> {
     distinct_fail_sigs: HashSet<String>,
     /// set while proptest is shrinking: stop counting
     frozen: bool,
+    emit: Option<(u64, String)>,
     _p: std::marker::PhantomData<P>,
 }
 
@@ -110,6 +117,11 @@ fn exec<P: Prop>(st: &mut State<P>, case: &P::Case, stage: &str) -> Option<Failu
         *st.sum.labels.entry((*l).to_string()).or_insert(0) += 1;
     }
     let h = case_hash(case);
+    if let Some((want, path)) = &st.emit {
+        if *want == h {
+            let _ = std::fs::write(path, serde_json::to_string(&serde_json::json!({"property": P::ID, "case": case, "digest": format!("{:016x}", cx.digest)})).unwrap_or_default());
+        }
+    }
     if cx.nontrivial && st.nontrivial.insert(h) && st.sum.samples.len() < 6 {
         // spread the samples: take the 1st, and then every so often
         let n = st.nontrivial.len();
@@ -137,6 +149,7 @@ pub fn run_shard<P: Prop>(args: ShardArgs) -> ShardSummary {
     if let Some(cap) = P::hard_alloc_cap() {
         alloc::set_hard_cap(cap);
     }
+    let args_hash_file = args.hash_file.clone();
     let digests = args
         .digest_file
         .as_ref()
@@ -150,6 +163,7 @@ pub fn run_shard<P: Prop>(args: ShardArgs) -> ShardSummary {
         known: args.known,
         distinct_fail_sigs: HashSet::new(),
         frozen: false,
+        emit: args.emit.clone(),
         _p: std::marker::PhantomData,
     };
     let want = |s: &str| args.stage_filter.as_deref().map(|f| f == s).unwrap_or(true);
@@ -278,8 +292,21 @@ pub fn run_shard<P: Prop>(args: ShardArgs) -> ShardSummary {
     if let Some(w) = &mut st.digests {
         let _ = w.flush();
     }
-    st.sum.nontrivial_hashes = st.nontrivial.iter().copied().collect();
-    st.sum.nontrivial_hashes.sort();
+    st.sum.nontrivial_count = st.nontrivial.len() as u64;
+    match &args_hash_file {
+        Some(path) => {
+            // compact side file: 8 bytes per hash
+            let mut buf: Vec<u8> = Vec::with_capacity(st.nontrivial.len() * 8);
+            for h in &st.nontrivial {
+                buf.extend_from_slice(&h.to_le_bytes());
+            }
+            let _ = std::fs::write(path, buf);
+        }
+        None => {
+            st.sum.nontrivial_hashes = st.nontrivial.iter().copied().collect();
+            st.sum.nontrivial_hashes.sort();
+        }
+    }
     st.sum.wall_s = t0.elapsed().as_secs_f64();
     st.sum
 }
@@ -328,6 +355,20 @@ pub fn derive_seed(seed: u64, id: &str, shard: u64) -> u64 {
     id.hash(&mut h);
     shard.hash(&mut h);
     h.finish()
+}
+
+/// Result digest of one saved case (for the cross-build comparison).
+pub fn digest_of<P: Prop>(case_json: serde_json::Value) -> Result<u64, String> {
+    if let Some(cap) = P::hard_alloc_cap() {
+        alloc::set_hard_cap(cap);
+    }
+    let cv = case_json.get("case").cloned().unwrap_or(case_json);
+    let case: P::Case = serde_json::from_value(cv).map_err(|e| format!("cannot decode case: {e}"))?;
+    let mut cx = Cx::new();
+    if let Err(p) = panics::catch(|| P::run(&case, &mut cx)) {
+        cx.record_panic(&p);
+    }
+    Ok(cx.digest ^ if cx.failure.is_some() { 0xDEAD } else { 0 })
 }
 
 /// Replays one saved case (no generator, no proptest). Returns the failure if any.
